@@ -57,7 +57,7 @@ class C27(Prop):
                   'with a fault at every statement index x every error on every run.')
     level_note = ('Partial: the server side is the fake pool + minisql (rollback/commit semantics and what the server does on deadlock, lock wait '
                   'timeout and connection loss are assumptions listed below); PyMySQL error classes come from a shim reproducing 1.1.2 error_map; '
-                  'concurrency between transactions is outside the model.')
+                  'interleaving of concurrent transactions and the behaviour of real aiomysql/MySQL beyond the listed assumptions are outside the claim.')
     budget = {'quick': 1500, 'thorough': 30000}
     search_budget = {'quick': 3000, 'thorough': 60000}
     rule = ('case = (initial rows, body of upsert/insert/update statements over two tables, fault script per attempt = statement index x error); '
@@ -79,7 +79,6 @@ class C27(Prop):
         'a connection released with an open transaction is closed by the pool and rolled back by the server (aiomysql behaviour)',
         'faults are injected at: taking a connection, START TRANSACTION, every body statement, COMMIT -- not at the ROLLBACK the client issues after a failure',
     ]
-    not_claimed = 'interleaving of concurrent transactions; behaviour of real aiomysql/MySQL beyond the assumptions above'
 
     # -- setup -------------------------------------------------------------------------------------
     def setup(self, repo):
